@@ -28,6 +28,7 @@ from ..shims.np_shim import SymArray
 from .common import (P, box, evalf, model_floats, not_close, paths, rng, K, Q, Sym, lift, simp, fresh)
 from .resv import FluidStub, load_reservoir, times, rows_of, policy_exact
 from .c04 import replay_rows
+from .c01 import replay_series_time  # noqa: F401  (looked up in this module by --replay)
 
 
 def _u(coef, x, t):
@@ -96,20 +97,24 @@ def replay_mesh(model, cls="SinglePhaseReservoir", nx=5):
 
 
 def replay_recovery(model, cls="SinglePhaseReservoir", nx=5):
+    """recovery_factor() on stored quadratic profiles: amplitudes that fall monotonically, and amplitudes that change sign
+    (the flux through the frac face reverses while frac-face pressure is raised: recovery then goes down)."""
     import numpy as np
     from bluebonnet.flow import reservoir as rr
-    r = rr.IdealReservoir(nx, 400.0, 1000.0, None) if cls == "IdealReservoir" else rr.SinglePhaseReservoir(nx, 400.0, 1000.0, None)
-    t = np.array([0.0, 0.5, 2.0])
-    g = np.array([1.0, 0.7, 0.2])
+    t = np.array([0.0, 0.5, 2.0, 3.0])
     a0, a1, a2 = 0.3, 1.7, -0.4
     x = np.arange(nx) / (nx - 1)
-    r.time = t
-    r.pseudopressure = np.array([gi * (a0 + a1 * x + a2 * x**2) for gi in g])
-    rf = np.asarray(r.recovery_factor(), float)
-    rate = g * a1
-    want = np.concatenate([[0.0], np.cumsum(np.diff(t) * (rate[:-1] + rate[1:]) / 2)]) * ((1 - 400.0 / 1000.0) if cls == "IdealReservoir" else 1.0)
-    bad = bool(np.any(np.abs(rf - want) > 1e-9 * (1 + np.abs(want))))
-    return bad, {"what": f"{cls} nx={nx}: recovery of a quadratic profile {rf.tolist()} vs FVF scale x trapezoid of the exact boundary derivative {want.tolist()}", "inputs": {}}
+    for g in (np.array([1.0, 0.7, 0.2, 0.1]), np.array([1.0, -0.6, 0.3, -0.2])):
+        r = rr.IdealReservoir(nx, 400.0, 1000.0, None) if cls == "IdealReservoir" else rr.SinglePhaseReservoir(nx, 400.0, 1000.0, None)
+        r.time = t
+        r.pseudopressure = np.array([gi * (a0 + a1 * x + a2 * x**2) for gi in g])
+        rf = np.asarray(r.recovery_factor(), float)
+        rate = g * a1
+        want = np.concatenate([[0.0], np.cumsum(np.diff(t) * (rate[:-1] + rate[1:]) / 2)]) * ((1 - 400.0 / 1000.0) if cls == "IdealReservoir" else 1.0)
+        if bool(np.any(np.abs(rf - want) > 1e-9 * (1 + np.abs(want)))):
+            return True, {"what": f"{cls} nx={nx}: recovery of a quadratic profile with amplitudes {g.tolist()}: {rf.tolist()} vs FVF scale x trapezoid of the exact "
+                                  f"boundary derivative {want.tolist()}", "inputs": {}}
+    return False, {"what": f"{cls} nx={nx}: recovery of quadratic profiles == FVF scale x trapezoid of the exact boundary derivative", "inputs": {}}
 
 
 def replay_reused_fluid(model, nx=5):
@@ -137,7 +142,7 @@ def replay_reused_fluid(model, nx=5):
     return d > 1e-9, {"what": f"SinglePhaseReservoir re-used after its fluid was replaced (p_i 8000 -> 5000): field differs from a fresh reservoir's by {d:.3e}", "inputs": {}}
 
 
-def job_interior(job, cls, nx, reused=False):
+def job_interior(job, cls, nx, reused=False, tseries=False):
     mod = load_reservoir()
     job.encoded(mod, f"{cls}.simulate", "_build_matrix")
     job.stub("linear solve: returns the samples of a polynomial test function at the new time (capturing stub)",
@@ -159,6 +164,10 @@ def job_interior(job, cls, nx, reused=False):
         SS.LinSolve.reset(pol)
         SS.reset_names()
         t, _ = times(3)
+        if tseries:
+            # the time column of a production table (a pandas Series with default labels): same scheme, step by step
+            from ..shims.pd_shim import SymSeries
+            t = SymSeries(list(t.d), "f8", [0, 1, 2])
         hold["t"] = t
         fluid = FluidStub() if cls != "IdealReservoir" else None
         r = (mod.IdealReservoir(Q(nx), fresh("pf"), fresh("pi", pos=True), None) if fluid is None
@@ -175,6 +184,11 @@ def job_interior(job, cls, nx, reused=False):
 
     for k, pr in enumerate(paths(job, run, [], max_paths=64)):
         if pr.exc is not None:
+            if tseries:
+                from .c01 import replay_series_time
+                job.prove(f"L1/{cls}[nx={nx}, time grid a pandas Series]: raises {type(pr.exc).__name__}[path{k}]", pr.pc, bound=f"nx={nx}",
+                          replay=(replay_series_time, {"cls": cls, "nx": nx}), note=repr(pr.exc)[:100])
+                continue
             job.errors.append(f"{cls} nx={nx} interior raised {pr.exc!r}")
             continue
         r, fluid, t, calls = pr.value
@@ -514,6 +528,8 @@ def jobs(tier):
         for cls in ("IdealReservoir", "SinglePhaseReservoir"):
             out.append((f"L1-{cls[:6]}-{nx}", lambda j, c=cls, n=nx: job_interior(j, c, n)))
     out.append(("L1-reused-fluid-5", lambda j: job_interior(j, "SinglePhaseReservoir", 5, reused=True)))
+    for cls in ("IdealReservoir", "SinglePhaseReservoir"):
+        out.append((f"L1-series-time-{cls[:6]}-5", lambda j, c=cls: job_interior(j, c, 5, tseries=True)))
     out.append(("boundary-4", lambda j: job_boundary(j, 4)))
     out.append(("recovery-5", lambda j: job_recovery(j, 5)))
     if tier != "quick":
